@@ -6,6 +6,7 @@
 From Coq Require Import Reals List.
 From Coquelicot Require Import Coquelicot.
 From ND.lib Require Import Expr ExprSound.
+From ND.lib Require Witness.
 From ND.gen Require Import Gen_C01.
 From ND.proofs Require Import C01_ode.
 Import ListNotations.
@@ -233,3 +234,11 @@ Theorem C01_debvp_rejects :
   DEBVP_reject_three.raises = true /\ DEBVP_reject_one.raises = true /\ DEBVP_reject_both_min.raises = true
   /\ DEBVP_dd.raises = false /\ DEBVP_dn.raises = false /\ DEBVP_nd.raises = false /\ DEBVP_nn.raises = false.
 Proof. exact debvp_rejects. Qed.
+
+(* ---- non-vacuity: the hypothesis `coherent fenv` of the analytic (is_derive) statements is met by a
+   non-constant smooth network in any number of inputs (lib/Witness.v: N = exp of the sum of its inputs);
+   the other hypotheses only place the evaluation point at a constrained point of a non-degenerate interval *)
+Theorem C01_coherent_nonvacuous :
+  ExprSound.coherent Witness.expfenv /\ Witness.expfenv 0%nat [0%nat] [0] = 1 /\
+  Witness.expfenv 0%nat [0%nat] [1] <> Witness.expfenv 0%nat [0%nat] [0].
+Proof. exact Witness.coherent_nontrivial. Qed.
